@@ -92,7 +92,7 @@ def build_static(log=None) -> tuple[bool, str]:
 
 def coqc(vfile: Path, timeout: int = 600, extra_q: list[tuple[Path, str]] = ()) -> tuple[int, str]:
     """Compile one generated .v file; returns (exit code, combined output)."""
-    args = ["timeout", str(timeout), "coqc"] + coq_args()
+    args = ["timeout", str(timeout), "coqc"] + coq_args() + ["-I", str(vfile.parent), "-Q", str(vfile.parent), ""]
     for d, name in extra_q:
         args += ["-Q", str(d), name]
     args.append(str(vfile))
@@ -374,3 +374,30 @@ def run_cases(chk: Check, name: str, prelude: str, case_type: str, case_terms: l
         chk.oblige(f"correspondence batch {name}: Coq evaluated the cases", False, "\n".join(broken))
         return None
     return sorted(failing)
+
+
+def run_parsers(jobs: list[dict], chunk: int = 40, timeout: int = 600) -> list[dict]:
+    """Run harness/parser_runner.py in child processes (time/memory limited) over the jobs."""
+    from concurrent.futures import ThreadPoolExecutor
+
+    env = dict(os.environ)
+    env["PYTHONPATH"] = f"{REPO / 'src'}:{VERIF / 'harness'}"
+
+    def one(part):
+        try:
+            p = subprocess.run([PY, str(VERIF / "harness" / "parser_runner.py")], input=json.dumps(part),
+                               capture_output=True, text=True, timeout=timeout, env=env)
+            if p.returncode != 0:
+                return [{"runner_error": p.stderr[-500:]} for _ in part]
+            return json.loads(p.stdout)
+        except subprocess.TimeoutExpired:
+            return [{"runner_error": "runner timeout"} for _ in part]
+        except json.JSONDecodeError as e:
+            return [{"runner_error": f"bad runner output: {e}"} for _ in part]
+
+    parts = [jobs[i:i + chunk] for i in range(0, len(jobs), chunk)]
+    out: list[dict] = []
+    with ThreadPoolExecutor(max_workers=8) as ex:
+        for r in ex.map(one, parts):
+            out += r
+    return out
